@@ -57,7 +57,7 @@ def _spec(cls: str, rng: random.Random) -> dict:
         # a cancel racing a failure: the final status is decided by stage outcomes, not by the cancel flag
         return rng.choice([specs.terminal_mid(), specs.racing_failure(), specs.failed_continue(), specs.first_of_failing(rng), specs.random_dag(rng, max_stages=5)])
     if cls == "loop":
-        return rng.choice([specs.jump_loop(rng.randint(1, 2), 3), specs.self_loop(2), specs.jump_side_branch(1), specs.forward_jump()])
+        return rng.choice([specs.jump_loop(rng.randint(1, 2), 3), specs.self_loop(2), specs.jump_side_branch(1), specs.forward_jump(), specs.skip_in_later_iteration(rng.randint(1, 2)), specs.skip_in_later_iteration(1)])
     if cls == "suspend":
         return specs.suspend_wf()
     if cls == "synthetic":
